@@ -11,7 +11,7 @@ Q = 0x1a0111ea397fe69a4b1ba7b6434bacd764774b84f38512bf6730d2a0f6b0f6241eabfffeb1
 def build(src, workdir):
     u = Unit('order', src)
     env_text(u)
-    u.add("use vstd::arithmetic::div_mod::*;")
+    u.add("use vstd::arithmetic::div_mod::*;\nuse vstd::arithmetic::mul::*;")
     u.add(spec_text('bits.vrs'))
     u.add(spec_text('affine.vrs'))
     u.add(spec_text('order.vrs'))
@@ -67,16 +67,97 @@ pub uninterp spec fn f2pow(x: F2, e: int) -> F2;
 pub proof fn ax_f2pow_mul(x: F2, a: int, b: int) requires a >= 0, b >= 0 ensures f2mul(f2pow(x, a), f2pow(x, b)) == f2pow(x, a + b) {{}}
 #[verifier::external_body]
 pub proof fn ax_f2pow_one(x: F2) requires f2in(x) ensures f2pow(x, 1) == x {{}}
-#[verifier::external_body]
-pub proof fn ax_f2mul_comm(a: F2, b: F2) ensures f2mul(a, b) == f2mul(b, a) {{}}
-#[verifier::external_body]
-pub proof fn ax_f2mul_assoc(a: F2, b: F2, c: F2) ensures f2mul(f2mul(a, b), c) == f2mul(a, f2mul(b, c)) {{}}
-#[verifier::external_body]
-pub proof fn ax_f2mul_one(a: F2) requires f2in(a) ensures f2mul(a, f2one()) == a, f2mul(f2one(), a) == a {{}}
-#[verifier::external_body]
-pub proof fn ax_f2mul_neg1(a: F2) requires f2in(a) ensures f2mul(a, f2neg(f2one())) == f2neg(a), f2mul(f2neg(f2one()), a) == f2neg(a), f2neg(f2neg(a)) == a, f2in(f2neg(a)) {{}}
-#[verifier::external_body]
-pub proof fn ax_u_squared() ensures f2mul(f2(0, 1), f2(0, 1)) == f2neg(f2one()) {{}}
+// ring laws of the schoolbook product (proved from the definitions; % Q() is removed with vstd's modular lemmas, the rest is a polynomial identity)
+pub proof fn ax_f2mul_comm(a: F2, b: F2) ensures f2mul(a, b) == f2mul(b, a)
+{{
+    reveal(f2mul);
+    assert(a.c0 * b.c0 == b.c0 * a.c0) by(nonlinear_arith); assert(a.c1 * b.c1 == b.c1 * a.c1) by(nonlinear_arith);
+    assert(a.c0 * b.c1 == b.c1 * a.c0) by(nonlinear_arith); assert(a.c1 * b.c0 == b.c0 * a.c1) by(nonlinear_arith);
+}}
+// one coordinate of a product of a product: ((x % q) * c - (y % q) * d) % q == (x c - y d) % q, and the same with +
+pub proof fn lemma_mod_strip(x: int, c: int, y: int, d: int, q: int, sg: int) requires q > 0, sg == 1 || sg == -1
+    ensures (((x % q) * c) % q + sg * (((y % q) * d) % q)) % q == (x * c + sg * (y * d)) % q
+{{
+    let u1 = (x % q) * c; let v1 = (y % q) * d; let u2 = x * c; let v2 = y * d;
+    lemma_mul_mod_noop_left(x, c, q); lemma_mul_mod_noop_left(y, d, q);
+    assert(u1 % q == u2 % q); assert(v1 % q == v2 % q);
+    if sg == 1 {{
+        lemma_add_mod_noop(u1, v1, q); lemma_add_mod_noop(u2, v2, q);
+        assert((u1 % q + 1 * (v1 % q)) % q == ((u1 % q) + (v1 % q)) % q);
+        assert((u2 + 1 * v2) % q == (u2 + v2) % q);
+    }} else {{
+        lemma_sub_mod_noop(u1, v1, q); lemma_sub_mod_noop(u2, v2, q);
+        assert((u1 % q + (-1) * (v1 % q)) % q == ((u1 % q) - (v1 % q)) % q);
+        assert((u2 + (-1) * v2) % q == (u2 - v2) % q);
+    }}
+}}
+pub proof fn lemma_rot(x: int, y: int, z: int) ensures (y * z) * x == (x * y) * z {{ assert((y * z) * x == (x * y) * z) by(nonlinear_arith); }}
+pub proof fn lemma_assoc_poly(a0: int, a1: int, b0: int, b1: int, c0: int, c1: int)
+    ensures (a0 * b0 - a1 * b1) * c0 - (a0 * b1 + a1 * b0) * c1 == (b0 * c0 - b1 * c1) * a0 - (b0 * c1 + b1 * c0) * a1,
+            (a0 * b0 - a1 * b1) * c1 + (a0 * b1 + a1 * b0) * c0 == (b0 * c1 + b1 * c0) * a0 + (b0 * c0 - b1 * c1) * a1
+{{
+    // every side is expanded into the eight monomials (a_i b_j) c_k with vstd's distributivity lemmas; the monomials are matched by lemma_rot
+    lemma_mul_is_distributive_sub_other_way(c0, a0 * b0, a1 * b1); lemma_mul_is_distributive_add_other_way(c1, a0 * b1, a1 * b0);
+    lemma_mul_is_distributive_sub_other_way(c1, a0 * b0, a1 * b1); lemma_mul_is_distributive_add_other_way(c0, a0 * b1, a1 * b0);
+    lemma_mul_is_distributive_sub_other_way(a0, b0 * c0, b1 * c1); lemma_mul_is_distributive_add_other_way(a1, b0 * c1, b1 * c0);
+    lemma_mul_is_distributive_add_other_way(a0, b0 * c1, b1 * c0); lemma_mul_is_distributive_sub_other_way(a1, b0 * c0, b1 * c1);
+    lemma_rot(a0, b0, c0); lemma_rot(a0, b1, c1); lemma_rot(a1, b0, c1); lemma_rot(a1, b1, c0);
+    lemma_rot(a0, b0, c1); lemma_rot(a0, b1, c0); lemma_rot(a1, b0, c0); lemma_rot(a1, b1, c1);
+}}
+pub proof fn ax_f2mul_assoc(a: F2, b: F2, c: F2) ensures f2mul(f2mul(a, b), c) == f2mul(a, f2mul(b, c))
+{{
+    reveal(f2mul); ax_q_pos();
+    let q = Q();
+    let (a0, a1, b0, b1, c0, c1) = (a.c0, a.c1, b.c0, b.c1, c.c0, c.c1);
+    // p = a b, r = b c (before reduction of the coordinates)
+    let p0 = a0 * b0 - a1 * b1; let p1 = a0 * b1 + a1 * b0;
+    let r0 = b0 * c0 - b1 * c1; let r1 = b0 * c1 + b1 * c0;
+    lemma_sub_mod_noop(a0 * b0, a1 * b1, q); lemma_add_mod_noop(a0 * b1, a1 * b0, q);
+    lemma_sub_mod_noop(b0 * c0, b1 * c1, q); lemma_add_mod_noop(b0 * c1, b1 * c0, q);
+    // left: ((p0 % q) c0 - (p1 % q) c1) % q , ((p0 % q) c1 + (p1 % q) c0) % q
+    lemma_mod_strip(p0, c0, p1, c1, q, -1); lemma_mod_strip(p0, c1, p1, c0, q, 1);
+    // right: (a0 (r0 % q) - a1 (r1 % q)) % q , (a0 (r1 % q) + a1 (r0 % q)) % q
+    lemma_mod_strip(r0, a0, r1, a1, q, -1); lemma_mod_strip(r1, a0, r0, a1, q, 1);
+    assert((r0 % q) * a0 == a0 * (r0 % q)) by(nonlinear_arith); assert((r1 % q) * a1 == a1 * (r1 % q)) by(nonlinear_arith);
+    assert((r1 % q) * a0 == a0 * (r1 % q)) by(nonlinear_arith); assert((r0 % q) * a1 == a1 * (r0 % q)) by(nonlinear_arith);
+    lemma_assoc_poly(a0, a1, b0, b1, c0, c1);
+    assert(p0 * c0 + (-1) * (p1 * c1) == p0 * c0 - p1 * c1); assert(r0 * a0 + (-1) * (r1 * a1) == r0 * a0 - r1 * a1);
+    assert(p0 * c1 + 1 * (p1 * c0) == p0 * c1 + p1 * c0); assert(r1 * a0 + 1 * (r0 * a1) == r1 * a0 + r0 * a1);
+    // unfold the four fsub / fadd / fmul layers into the shapes above
+    lemma_sub_mod_noop((p0 % q) * c0, (p1 % q) * c1, q); lemma_add_mod_noop((p0 % q) * c1, (p1 % q) * c0, q);
+    lemma_sub_mod_noop(a0 * (r0 % q), a1 * (r1 % q), q); lemma_add_mod_noop(a0 * (r1 % q), a1 * (r0 % q), q);
+}}
+pub proof fn ax_f2mul_one(a: F2) requires f2in(a) ensures f2mul(a, f2one()) == a, f2mul(f2one(), a) == a
+{{
+    reveal(f2mul); reveal(f2one); ax_q_pos();
+    assert(a.c0 * 1 == a.c0 && a.c1 * 0 == 0 && a.c0 * 0 == 0 && a.c1 * 1 == a.c1 && 1 * a.c0 == a.c0 && 0 * a.c1 == 0 && 1 * a.c1 == a.c1 && 0 * a.c0 == 0);
+    lemma_small_mod(a.c0 as nat, Q() as nat); lemma_small_mod(a.c1 as nat, Q() as nat); lemma_small_mod(0, Q() as nat);
+}}
+pub proof fn ax_f2mul_neg1(a: F2) requires f2in(a) ensures f2mul(a, f2neg(f2one())) == f2neg(a), f2mul(f2neg(f2one()), a) == f2neg(a), f2neg(f2neg(a)) == a, f2in(f2neg(a))
+{{
+    reveal(f2mul); reveal(f2one); reveal(f2neg); ax_q_pos();
+    let q = Q(); let m1 = fneg(1);
+    lemma_fneg_val(0); lemma_fneg_val(1); lemma_fneg_val(a.c0); lemma_fneg_val(a.c1); lemma_fneg_val(fneg(a.c0)); lemma_fneg_val(fneg(a.c1));
+    assert(m1 == q - 1);
+    // a.c0 * (q-1) % q == (-a.c0) % q
+    assert(a.c0 * (q - 1) == q * a.c0 + (0 - a.c0)) by(nonlinear_arith); assert(a.c1 * (q - 1) == q * a.c1 + (0 - a.c1)) by(nonlinear_arith);
+    lemma_mod_multiples_vanish(a.c0, 0 - a.c0, q); lemma_mod_multiples_vanish(a.c1, 0 - a.c1, q);
+    assert((q - 1) * a.c0 == a.c0 * (q - 1)) by(nonlinear_arith); assert((q - 1) * a.c1 == a.c1 * (q - 1)) by(nonlinear_arith);
+    assert(a.c1 * 0 == 0 && a.c0 * 0 == 0 && 0 * a.c1 == 0 && 0 * a.c0 == 0);
+    lemma_small_mod(0, q as nat);
+    let n0 = (0 - a.c0) % q; let n1 = (0 - a.c1) % q;
+    lemma_mod_bound(0 - a.c0, q); lemma_mod_bound(0 - a.c1, q);
+    lemma_small_mod(n0 as nat, q as nat); lemma_small_mod(n1 as nat, q as nat);
+    assert(n0 - 0 == n0 && n1 + 0 == n1 && 0 + n1 == n1);
+}}
+pub proof fn ax_u_squared() ensures f2mul(f2(0, 1), f2(0, 1)) == f2neg(f2one())
+{{
+    reveal(f2mul); reveal(f2one); reveal(f2neg); ax_q_pos();
+    lemma_fneg_val(0); lemma_fneg_val(1); lemma_small_mod(0, Q() as nat);
+    assert(0int * 0 == 0 && 1int * 1 == 1 && 0int * 1 == 0 && 1int * 0 == 0);
+    lemma_small_mod(1, Q() as nat);
+    lemma_mod_add_multiples_vanish(0 - 1, Q());
+}}
 // (x y)(x y) == (x x)(y y)
 pub proof fn lemma_sq_prod(x: F2, y: F2) ensures f2mul(f2mul(x, y), f2mul(x, y)) == f2mul(f2mul(x, x), f2mul(y, y))
 {{
